@@ -36,12 +36,14 @@ CFGS = {"W64": "asan-dbg", "W32": "w32-dbg"}
 # Each entry: function -> what is missing.  They are not theorems; ASan runs at exact size
 # cover them as samples.  (regex on the function key)
 OPEN = [
-    (r"bign(96)?[A-Z]\w*|bakeSWU|g12sEcCreate", "users of the bignStart post-condition: provable (see docs/C07.md) but the omega goals are large; kept "
-     "open until each proof is verified to build within the heartbeat limit in both word sizes"),
+    (r"bign(96)?ParamsVal|bignSign2?|bignIdSign2?|bignKeypair(Gen|Val)|bignPubkeyCalc",
+     "users of the bignStart post-condition whose omega goals are large (many-way max): they prove with a raised heartbeat limit "
+     "(36 s ... 2 min each), which is too slow for the check; kept open until split into smaller lemmas"),
+    (r"g12sEcCreate", "deep callback of g12sEcCreate_keep is a function parameter; omega cannot relate it"),
     (r"ppMinPolyMod", "l = ppDeg(mod) is read from data: unconstrained in the model, the obligation needs l <= n * B_PER_W"),
     (r"ecpIsSafeGroup|ec2IsSafeGroup", "callee sizes are run-time normalised (n1' <= n + 1): needs monotonicity of priIsPrime_deep/zzMod_deep in n"),
-    (r"pfok\w+|priIsSGPrime|zzPowerMod", "post-condition of zmCreate/zmMontCreate is available; the goal needs monotonicity of "
-     "zmCreate_deep/qrPower_deep in the run-time normalised octet length (no' <= O_OF_W(n)) — not proved by the generic tactic"),
+    (r"pfok\w+", "pfokDH/MTI/PubkeyCalc call qrPower with an exponent of W_OF_B(r) words while the blob is sized for W_OF_B(l): needs the "
+     "parameter-domain fact r <= l (and monotonicity of qrPower_deep in m), which the model does not have; pfokParamsVal: goal too large"),
 ]
 
 
@@ -352,13 +354,16 @@ def valgrind_run(ctx, exe, ops, label):
     bad = []
     log = os.path.join(ctx.scratch, "vg-%s.log" % label)
     venv = dict(os.environ, C07_SINK="1")
-    p = subprocess.run([vg, "-q", "--error-exitcode=77", "--track-origins=no", "--log-file=" + log, exe],
+    p = subprocess.run([vg, "-q", "--error-limit=no", "--error-exitcode=77", "--track-origins=no", "--log-file=" + log, exe],
                        input="\n".join(ops) + "\n", capture_output=True, text=True, env=venv)
     if p.returncode == 77 or (os.path.exists(log) and os.path.getsize(log) > 0):
         rep = open(log).read()
         if "uninitialised" in rep or "Invalid" in rep or "Conditional jump" in rep or "Process terminating" in rep:
             # locate: re-run ops one by one (bounded)
+            t_loc = time.time()
             for op in ops[:4000]:
+                if time.time() - t_loc > 600:
+                    break          # localisation is time-boxed; the whole-stream report is used instead
                 q = subprocess.run([vg, "-q", "--error-exitcode=77", exe], input=op + "\n", capture_output=True, text=True, env=venv)
                 if q.returncode == 77:
                     bad.append((op, q.stderr[-1500:]))
@@ -434,8 +439,18 @@ def run(ctx):
         vops = math_ops(ctx.rng, "quick", "W64")
         hops = hl_ops() + core_ops()
         if ctx.tier == "quick":
-            vops = [o for i, o in enumerate(vops) if i % 9 == 0][:160]
-            hops = [o for i, o in enumerate(hops) if i % 12 == 0][:40]
+            # stratified: every function family is represented (first, middle, last, one random op of each)
+            def strat(ops, per):
+                fams = {}
+                for o in ops:
+                    fams.setdefault(_fam(o), []).append(o)
+                out = []
+                for f, lst in fams.items():
+                    pick = {0, len(lst) // 2, len(lst) - 1, ctx.rng.randrange(len(lst))}
+                    out += [lst[i] for i in sorted(pick)][:per]
+                return out
+            vops = strat(vops, 4)
+            hops = strat(hops, 2)
         vg_bad = valgrind_run(ctx, exe_rel, vops + hops, "rel")
         ctx.cov["valgrind_ops"] = len(vops) + len(hops)
     except RuntimeError as e:
